@@ -1,0 +1,154 @@
+//go:build verif
+
+package kernel
+
+// C10  "Any two threshold certificates share more than a third of the signer set".
+//
+// verifyFinalization checks a certificate against publics = ConsensusKeys(round, ts) (n keys) with T = ConsensusThreshold(ts, true).
+// Machine-checked here:
+//   (a) ConsensusThreshold never panics, writes nothing, returns 1000 or b*2/3+1 with 7 <= b <= |view(ts)|; its loop counts a
+//       listed node iff !Excluded(removing, cn) && Counted(node, cn, ts, final)   (loop invariants exact0 / exact1);
+//   (b) consensusNodes/ConsensusKeys write nothing, return at most |view(ts)| (+1 pledging chain at round 0) fresh participants,
+//       every one but the round-0 pledger Ready at ts; the loop selects a listed node iff !Excluded(removing, cn) && Ready(node, cn, ts);
+//   (c) ConsensusReady is exactly Ready; lemma ReadyImpliesCounted: Ready(cn, ts) ==> Counted(cn, ts, final) for both values of final;
+//   (d) lemma QuorumIntersection: b >= 7, n <= b ==> 3*(2*(b*2/3+1) - n) > n;  lemma NoCertificateBelowMinimum: base < 7 ==> T = 1000 > 64 >= popcount(mask).
+// Argued, not machine-checked (the engine has no recursive Count): both loops range over the same list NodesListWithoutState(ts, false)
+// with the same `removing` (same deterministic, state-only computation: removingOrSlashingNodeAt writes nothing), so by (c) pointwise
+// #selected <= #counted, i.e. n <= b on an accepted chain, and (d) applies.
+// NOT TRUE for the round-zero accept certificate (n <= b + 1): lemma QuorumIntersectionRoundZero is undischarged, model b = 7, n = 8  (finding F4).
+
+// Representation invariant of *Node (cached membership views). Established by LoadConsensusNodes -> buildNodeStateSequences ->
+// nodeSequenceWithoutState (every sequence is `&NodeStateSequence{...}`, every member `&CNode{...}`), the only writers of the two
+// sequence fields; the cached objects are never mutated afterwards (C11). The length bound is a fact of the language: a []*CNode
+// of n elements occupies 8n bytes of an address space below 2^63.
+//@ spec SeqsOK(seqs []*NodeStateSequence) bool = !fresh(seqs) && forall i int :: 0 <= i && i < len(seqs) ==> seqs[i] != nil && !fresh(seqs[i]) &&
+//@     len(seqs[i].NodesWithoutState) < 1152921504606846976 &&
+//@     !fresh(seqs[i].NodesWithoutState) &&
+//@     (forall j int :: 0 <= j && j < len(seqs[i].NodesWithoutState) ==> seqs[i].NodesWithoutState[j] != nil && !fresh(seqs[i].NodesWithoutState[j]))
+//@ spec NodeRep(node *Node) bool = node != nil && SeqsOK(node.nodeStateSequences) && SeqsOK(node.acceptedNodeStateSequences)
+
+//@ spec SeqsOf(node *Node, acceptedOnly bool) []*NodeStateSequence = acceptedOnly ? node.acceptedNodeStateSequences : node.nodeStateSequences
+//@ spec ListIdx(seqs []*NodeStateSequence, threshold uint64, i int) bool = 0 <= i && i < len(seqs) && seqs[i].Timestamp < threshold &&
+//@     (forall k int :: i < k && k < len(seqs) ==> seqs[k].Timestamp >= threshold)
+//@ spec NoList(seqs []*NodeStateSequence, threshold uint64) bool = forall k int :: 0 <= k && k < len(seqs) ==> seqs[k].Timestamp >= threshold
+
+//@ spec IsList(seqs []*NodeStateSequence, threshold uint64, l []*CNode) bool = (NoList(seqs, threshold) && len(l) == 0) ||
+//@     (exists i int :: ListIdx(seqs, threshold, i) && l == seqs[i].NodesWithoutState)
+
+// The result is the member list of the LAST cached sequence whose timestamp is below the threshold (ListIdx determines i uniquely),
+// or empty when there is none. Stated existentially (a universally quantified "forall i :: ListIdx(i) ==> ..." assumption makes a matching loop).
+//@ func (node *Node) NodesListWithoutState
+//@   property C10, C29
+//@   requires NodeRep(node)
+//@   modifies nothing
+//@   ensures [list] IsList(SeqsOf(node, acceptedOnly), threshold, result)
+//@   ensures [elems] forall j int :: 0 <= j && j < len(result) ==> result[j] != nil
+//@   loop 0 invariant 0 <= i && i <= len(sequences) && sequences == SeqsOf(node, acceptedOnly)
+//@   loop 0 invariant forall k int :: i <= k && k < len(sequences) ==> sequences[k].Timestamp >= threshold
+
+// ───────────── node.go / slash.go / graph.go (C10) ─────────────
+
+// Per-node predicates, exactly as the code evaluates them (uint64 additions wrap, hence U64).
+//@ spec IsGenesis(node *Node, cn *CNode) bool = node.genesisNodesMap != nil && has(node.genesisNodesMap, cn.IdForNetwork) && node.genesisNodesMap[cn.IdForNetwork]
+//@ spec Ready(node *Node, cn *CNode, ts uint64) bool = cn.State == common.NodeStateAccepted &&
+//@     (IsGenesis(node, cn) || U64(cn.Timestamp + config.KernelNodeAcceptPeriodMinimum) < ts)
+//@ spec Counted(node *Node, cn *CNode, ts uint64, final bool) bool =
+//@     (cn.State == common.NodeStatePledging && !final &&
+//@        U64(cn.Timestamp + (config.KernelNodeAcceptPeriodMinimum - 3 * config.SnapshotReferenceThreshold * config.SnapshotRoundGap)) < ts) ||
+//@     (cn.State == common.NodeStateAccepted &&
+//@        (IsGenesis(node, cn) || U64(cn.Timestamp + config.SnapshotReferenceThreshold * config.SnapshotRoundGap) < ts))
+//@ spec Excluded(removing *CNode, cn *CNode) bool = removing != nil && cn.IdForNetwork == removing.IdForNetwork
+//@ spec Threshold(b int) int = b < config.KernelMinimumNodesCount ? 1000 : b * 2 / 3 + 1
+//@ spec WindowStart(node *Node, ts uint64) int = U64(node.Epoch + U64(ts - node.Epoch) / OneDay * OneDay + config.KernelNodeAcceptTimeBegin * 3600000000000)
+
+//@ func (node *Node) ConsensusReady
+//@   property C10
+//@   requires node != nil && cn != nil
+//@   pure
+//@   ensures result <==> Ready(node, cn, timestamp)
+
+//@ func (node *Node) removingOrSlashingNodeAt
+//@   property C10, C29
+//@   requires NodeRep(node)
+//@   modifies nothing
+//@   ensures [cand] result != nil ==> timestamp >= node.Epoch && AcceptHour(node, timestamp) &&
+//@       (exists i int :: ListIdx(node.nodeStateSequences, WindowStart(node, timestamp), i) &&
+//@        len(node.nodeStateSequences[i].NodesWithoutState) > config.KernelMinimumNodesCount &&
+//@        AllSettled(node.nodeStateSequences[i].NodesWithoutState, WindowStart(node, timestamp), len(node.nodeStateSequences[i].NodesWithoutState)) &&
+//@        OldestAccepted(node.nodeStateSequences[i].NodesWithoutState, len(node.nodeStateSequences[i].NodesWithoutState), result))
+
+//@ func (node *Node) ConsensusThreshold
+//@   property C10
+//@   requires NodeRep(node)
+//@   modifies nothing
+//@   ensures [range] result == 1000 || (exists b int :: config.KernelMinimumNodesCount <= b && result == b * 2 / 3 + 1 &&
+//@       (exists i int :: ListIdx(node.nodeStateSequences, timestamp, i) && b <= len(node.nodeStateSequences[i].NodesWithoutState)))
+//@   ensures [nonecounted] (NoList(node.nodeStateSequences, timestamp) || (exists i int :: ListIdx(node.nodeStateSequences, timestamp, i) &&
+//@       (forall k int :: 0 <= k && k < len(node.nodeStateSequences[i].NodesWithoutState) ==> !Counted(node, node.nodeStateSequences[i].NodesWithoutState[k], timestamp, final))))
+//@       ==> result == 1000
+//@   loop 0 invariant 0 <= consensusBase && consensusBase <= rangeindex + 1
+//@   loop 0 invariant [exact0] (forall k int :: 0 <= k && k <= rangeindex ==> (Excluded(removing, nodes[k]) || !Counted(node, nodes[k], timestamp, final))) ==> consensusBase == 0
+//@   loop 0 invariant [exact1] (forall k int :: 0 <= k && k <= rangeindex ==> (!Excluded(removing, nodes[k]) && Counted(node, nodes[k], timestamp, final))) ==> consensusBase == rangeindex + 1
+
+//@ spec Pledging(chain *Chain) bool = chain.State == nil && chain.ConsensusInfo != nil
+//@ spec SameNode(a *CNode, b *CNode) bool = a.IdForNetwork == b.IdForNetwork && a.Signer == b.Signer && a.Payee == b.Payee &&
+//@     a.Transaction == b.Transaction && a.Timestamp == b.Timestamp && a.State == b.State
+
+//@ func (chain *Chain) consensusNodes
+//@   property C10
+//@   requires chain != nil && NodeRep(chain.node)
+//@   modifies nothing
+//@   ensures [len] (NoList(chain.node.nodeStateSequences, timestamp) && len(result) <= ((Pledging(chain) && round == 0) ? 1 : 0)) ||
+//@       (exists i int :: ListIdx(chain.node.nodeStateSequences, timestamp, i) &&
+//@        len(result) <= len(chain.node.nodeStateSequences[i].NodesWithoutState) + ((Pledging(chain) && round == 0) ? 1 : 0))
+//@   ensures [index] forall k int :: 0 <= k && k < len(result) ==> result[k] != nil && fresh(result[k]) && result[k].ConsensusIndex == k
+//@   ensures [ready] forall k int :: 0 <= k && k < len(result) - ((Pledging(chain) && round == 0) ? 1 : 0) ==> Ready(chain.node, result[k], timestamp)
+//@   ensures [pledger] Pledging(chain) && round == 0 ==> len(result) > 0 && SameNode(result[len(result) - 1], chain.ConsensusInfo)
+//@   loop 0 invariant [list] IsList(chain.node.nodeStateSequences, timestamp, nodes)
+//@   loop 0 invariant cap(participants) == 0 || fresh(participants)
+//@   loop 0 invariant 0 <= len(participants) && len(participants) <= rangeindex + 1
+//@   loop 0 invariant forall k int :: 0 <= k && k < len(participants) ==> participants[k] != nil && fresh(participants[k]) && allocated(participants[k]) &&
+//@        participants[k].ConsensusIndex == k && Ready(chain.node, participants[k], timestamp)
+//@   loop 0 invariant [exact0] (forall k int :: 0 <= k && k <= rangeindex ==> (Excluded(removing, nodes[k]) || !Ready(chain.node, nodes[k], timestamp))) ==> len(participants) == 0
+//@   loop 0 invariant [exact1] (forall k int :: 0 <= k && k <= rangeindex ==> (!Excluded(removing, nodes[k]) && Ready(chain.node, nodes[k], timestamp))) ==> len(participants) == rangeindex + 1
+
+// The key vector a certificate is verified against: one id and one public key per participant, same order.
+//@ func (chain *Chain) ConsensusKeys
+//@   property C10
+//@   requires chain != nil && NodeRep(chain.node)
+//@   modifies nothing
+//@   ensures [len] len(result0) == len(result1) &&
+//@       ((NoList(chain.node.nodeStateSequences, timestamp) && len(result1) <= ((Pledging(chain) && round == 0) ? 1 : 0)) ||
+//@        (exists i int :: ListIdx(chain.node.nodeStateSequences, timestamp, i) &&
+//@         len(result1) <= len(chain.node.nodeStateSequences[i].NodesWithoutState) + ((Pledging(chain) && round == 0) ? 1 : 0)))
+//@   ensures [keys] forall k int :: 0 <= k && k < len(result1) ==> result1[k] != nil
+//@   loop 0 invariant len(signers) == len(nodes) && len(publics) == len(nodes)
+//@   loop 0 invariant forall k int :: 0 <= k && k <= rangeindex ==> publics[k] != nil
+
+// ───────────── arithmetic (C10) ─────────────
+
+//@ lemma QuorumIntersection(b int, n int)
+//@   property C10
+//@   requires b >= config.KernelMinimumNodesCount && 0 <= n && n <= b
+//@   ensures [third] 3 * (2 * Threshold(b) - n) > n
+//@   ensures [reachable] Threshold(b) <= b
+
+//@ lemma QuorumIntersectionRoundZero(b int, n int)
+//@   property C10
+//@   -- F4: round-zero accept certificate; the pledging node is in the key set (n <= b + 1) but not in the final threshold base b.
+//@   -- EXPECTED UNDISCHARGED (b = 7, n = 8, T = 5: two certificates may share 2 <= 8/3 signers).
+//@   requires b >= config.KernelMinimumNodesCount && 0 <= n && n <= b + 1
+//@   ensures [third] 3 * (2 * Threshold(b) - n) > n
+
+//@ lemma NoCertificateBelowMinimum(b int, popcount int)
+//@   property C10
+//@   requires 0 <= b && b < config.KernelMinimumNodesCount && 0 <= popcount && popcount <= 64
+//@   ensures [unmeetable] Threshold(b) == 1000 && popcount < Threshold(b)
+
+//@ lemma ReadyImpliesCounted(node *Node, cn *CNode, ts uint64)
+//@   property C10
+//@   -- pointwise half of "signer set <= threshold base": a node that may sign at ts is counted by ConsensusThreshold(ts, final=true).
+//@   -- Needs cn.Timestamp + 12h not to wrap: timestamps are UnixNano below 2^63 (same bound as SnapsOK, C19).
+//@   requires node != nil && cn != nil && 0 <= cn.Timestamp && cn.Timestamp < 9223372036854775808
+//@   ensures [final] Ready(node, cn, ts) ==> Counted(node, cn, ts, true)
+//@   ensures [cache] Ready(node, cn, ts) ==> Counted(node, cn, ts, false)
